@@ -405,7 +405,7 @@ pub fn generate(rng: &mut Rng, thorough: bool) -> Vec<Case> {
     for b0 in 0..256u64 {
         cs.push(Case::new(406, vec![vec![b0]], "utf8-exhaustive-1"));
     }
-    let stride = if thorough { 1 } else { 3 };
+    let stride = if thorough { 1 } else { 13 };
     let mut i = 0u64;
     while i < 65536 {
         cs.push(Case::new(406, vec![vec![i >> 8, i & 255]], "utf8-exhaustive-2"));
